@@ -6,12 +6,13 @@
        neither is dropped (Step.map returns a step);
      - if both orders apply, the two results have the same token sequence.
    Hypotheses: both slices OpenOK (valid nodes off their open sides), so that the intermediate documents
-   are valid.  That both orders do apply, and the pairs involving replace-around, mark and attribute
-   steps, are evaluated per case by Corr.C17. *)
+   are valid.  Third theorem: a replace step and a node-level step (attribute, add / remove node mark) behind it.
+   That both orders do apply, and the pairs involving replace-around and mark steps, are evaluated per case by
+   Corr.C17. *)
 From Coq Require Import List Arith.
 From PM Require Import Model.Data Model.Mark Model.Tree Model.StepMap Model.Step Spec.Tokens
   Proofs.ReplaceValid Proofs.SliceSides Proofs.TokenBasics Proofs.ReplaceTokens Proofs.SliceShape Proofs.TokenLaws
-  Proofs.StepAlgebra Proofs.TokenInj Proofs.ReplaceCanon Proofs.DocEquality.
+  Proofs.StepAlgebra Proofs.TokenInj Proofs.ReplaceCanon Proofs.DocEquality Proofs.NodeSteps Proofs.NodeStepCommute.
 Import ListNotations.
 
 Theorem C17_separated_replace_steps_commute : forall s f1 t1 s1 st1 f2 t2 s2 st2 doc da db,
@@ -45,3 +46,22 @@ Theorem C17_separated_replace_steps_converge : forall s f1 t1 s1 st1 f2 t2 s2 st
   node_eqb dab dba = true.
 Proof. exact replace_steps_commute_eq. Qed.
 Print Assumptions C17_separated_replace_steps_converge.
+
+(* a replace step a = replace [f,t) by sl and a node-level step b (AttrStep / AddNodeMarkStep / RemoveNodeMarkStep) on the
+   node whose token is number pos, with at least one untouched token between them (t < pos): rebasing b over a's map
+   moves it by a's size change and never drops it, rebasing a over b's (empty) map gives a itself, and if both orders
+   apply the two results have the same token sequence.  ([move_step b p] is b at position p; hypothesis on the
+   schema: ContentMatch.empty is a valid end, as in C01_node_step_valid.) *)
+Theorem C17_replace_and_node_step_commute : forall s f t sl structure st pos doc da db,
+  check s doc = true -> valid_end s 0 = true ->
+  OpenOK s (sl_content sl) (sl_open_start sl) (sl_open_end sl) -> f <= t -> t < pos -> is_node_step st = Some pos ->
+  apply s (SReplace f t sl structure) doc = ROk da ->
+  apply s st doc = ROk db ->
+  let pos' := pos + length (IT s sl) - (t - f) in
+  step_map st (get_map s (SReplace f t sl structure)) = Some (move_step st pos') /\
+  step_map (SReplace f t sl structure) (get_map s st) = Some (SReplace f t sl false) /\
+  forall dab dba,
+    apply s (move_step st pos') da = ROk dab -> apply s (SReplace f t sl false) db = ROk dba ->
+    DT s dab = DT s dba.
+Proof. exact node_step_after_replace_commute. Qed.
+Print Assumptions C17_replace_and_node_step_commute.
